@@ -95,7 +95,7 @@ Definition prop_case (c : case) : bool :=
           step_structure a b &&
           match op with
           | OpScan s e _ _ _ => scan_ok a b s e
-          | OpTip _ => tip_ok a b
+          | OpTip t => tip_ok a b && verify_ok c t a b
           | OpTrim h => trim_ok a b h
           | OpRewind t _ => rewind_ok a b t
           | _ => true
